@@ -432,4 +432,87 @@ func runC09(c *Ctx) {
 
 		c.Check(okRet, "R09.8", FuncName(f)+" :: reports 'new' iff the key was absent", fpos(f), "idx == -1", "return value no longer tells whether a new entry was created (length accounting depends on it)")
 	}
+
+	// ---------- R09.10 retry backoffs never give up
+	c.Rule("R09.10", "E1", "every exponential backoff built by the controller runtimes has its elapsed-time limit switched off before it is used: a failing item (or controller) is retried with growing intervals for as long as it fails, the backoff never turns into its Stop value", 4)
+
+	isUnlimited := func(in ssa.Instruction) bool {
+		if StoreToField("ExponentialBackOff", "MaxElapsedTime")(in) && p.Desc(in.(*ssa.Store).Val) == "const:0" {
+			return true
+		}
+
+		return false
+	}
+
+	for _, rel := range []string{pkgQRuntime, pkgRRuntime} {
+		for _, f := range p.PkgFuncs(rel) {
+			ctor := func(in ssa.Instruction) bool {
+				call, ok := in.(*ssa.Call)
+				if !ok || !Glob("github.com/cenkalti/backoff/*.NewExponentialBackOff", p.CalleeName(call)) {
+					return false
+				}
+
+				for _, o := range variadicElems(call) {
+					if oc, ok := o.(*ssa.Call); ok && Glob("github.com/cenkalti/backoff/*.WithMaxElapsedTime", p.CalleeName(oc)) && p.ArgDesc(oc, 0) == "const:0" {
+						return false // limit switched off by option
+					}
+				}
+
+				return true
+			}
+
+			if len(Find(f, ctor)) == 0 {
+				continue
+			}
+
+			exit := func(in ssa.Instruction) bool {
+				if IsReturn(in) {
+					return true
+				}
+
+				call, ok := in.(ssa.CallInstruction)
+
+				return ok && Glob("(*github.com/cenkalti/backoff/*.ExponentialBackOff).NextBackOff", p.CalleeName(call))
+			}
+
+			c.MustFollow("R09.10", "NewExponentialBackOff ⇒ MaxElapsedTime = 0 before use", f, ctor, exit, CutSpec{Nodes: isUnlimited}, 1)
+		}
+	}
+
+}
+
+// variadicElems returns the values passed in the variadic tail of a call built by the compiler
+// (new [n]T; stores into its elements; slice).
+func variadicElems(call *ssa.Call) []ssa.Value {
+	sig := call.Common().Signature()
+	if !sig.Variadic() || len(call.Call.Args) == 0 {
+		return nil
+	}
+
+	sl, ok := call.Call.Args[len(call.Call.Args)-1].(*ssa.Slice)
+	if !ok {
+		return nil
+	}
+
+	al, ok := sl.X.(*ssa.Alloc)
+	if !ok || al.Referrers() == nil {
+		return nil
+	}
+
+	var out []ssa.Value
+
+	for _, r := range *al.Referrers() {
+		ia, ok := r.(*ssa.IndexAddr)
+		if !ok || ia.Referrers() == nil {
+			continue
+		}
+
+		for _, rr := range *ia.Referrers() {
+			if st, ok := rr.(*ssa.Store); ok && st.Addr == ia {
+				out = append(out, st.Val)
+			}
+		}
+	}
+
+	return out
 }
